@@ -140,6 +140,26 @@ def run(R):
     if not okp:
         R.viol("C20.peers.arg", "peers-args-source", "a builder does not pass its own peers_args to push_arguments_from_peers_args", bu, bu.lines[0])
     R.inst("C20.peers.arg", "K6 flows-to", "both builders pass their peers_args", 2, okp)
+    # every peers option is written on its own: whether `--x` is emitted depends on option x alone (seed C20-r6: `if ignore_cache {..} else if
+    # let Some(dir) = bootstrap_cache_dir {..}` — a service configured with both loses its cache directory at install and at every upgrade;
+    # antnode still *writes* the cache there when told not to load it).  antctl's own parse has already refused combinations clap declares
+    # conflicting, so no dependence between options is needed in the writer
+    nind, okind = 0, True
+    for f, xs in mp["flags"].items():
+        for x in xs:
+            if not x["conditional"]:
+                continue
+            nind += 1
+            gf = {mapf(y).split(".")[-1] for y in x["guard_fields"]}
+            own = {mapf(y).split(".")[-1] for y in x["value_fields"]} or gf
+            if len(gf) != 1 or (x["value_fields"] and gf != own):
+                okind = False
+                R.viol("C20.peers.independent", "depends-on-other:%s" % f, "push_arguments_from_peers_args writes %s depending on %s: a service configured with the options together "
+                       "is installed / upgraded without one of them" % (f, ", ".join(sorted(gf))), bp, x["line"])
+    if nind < 6:
+        okind = False
+        R.viol("C20.peers.independent", "instance-floor", "only %d conditional peers flags found (floor 6)" % nind, bp, bp.lines[0])
+    R.inst("C20.peers.independent", "K10 polarity (guard set)", "each peers option is emitted depending on that option alone", nind, okind)
     # positional (subcommand) value
     posi = [x for x in mi["positional"]]
     posu = [x for x in mu["positional"]]
